@@ -66,12 +66,54 @@ def run(tier):
     n_un = 400 if tier == 'quick' else 3000
     S.validate([f for f, _, _ in specs] + ['known_size_in_bytes_as_word_member'], [], n_un, 0)
     import containercheck
-    S.container_bounds = containercheck.run(S, tier)
+    import typercheck
+    # the typer clauses run in a forked child while the containment clauses run here (both mostly wait for solver processes)
+    import multiprocessing
+    mp = multiprocessing.get_context('fork')
+    rx, tx = mp.Pipe(duplex=False)
+
+    def child():
+        try:
+            n_q, n_v, n_f = len(S.queries), len(S.violations), len(S.functions)
+            v0, s0, e0 = S.validated, S.solver_s, S.exec_s
+            bounds = typercheck.run(S, tier)
+            viol = [{k: v for k, v in x.items() if k != 'model'} for x in S.violations[n_v:]]
+            tx.send(('ok', bounds, S.queries[n_q:], viol, S.functions[n_f:], S.validated - v0, S.solver_s - s0, S.exec_s - e0))
+        except Inconclusive as e:
+            tx.send(('inconclusive', str(e)))
+        except BaseException as e:      # noqa: an internal error in the child must not look like a pass
+            tx.send(('error', '%s: %s' % (type(e).__name__, e)))
+        finally:
+            tx.close()
+    proc = mp.Process(target=child)
+    proc.start()
+    try:
+        S.container_bounds = containercheck.run(S, tier)
+    except BaseException:
+        proc.terminate()
+        raise
+    if not rx.poll(3600):
+        proc.terminate()
+        raise Inconclusive('the typer clauses did not finish')
+    msg = rx.recv()
+    proc.join()
+    if msg[0] == 'inconclusive':
+        raise Inconclusive(msg[1])
+    if msg[0] != 'ok':
+        raise RuntimeError('typer clauses: ' + msg[1])
+    _tag, t_bounds, t_queries, t_viol, t_funcs, t_val, t_solver, t_exec = msg
+    S.container_bounds.update(t_bounds)
+    S.queries += t_queries
+    S.violations += t_viol
+    S.functions += t_funcs
+    S.validated += t_val
+    S.solver_s += t_solver
+    S.exec_s += t_exec
     if tier != 'quick':
         # more containers, leaf types only (the number of containers is cheap, the type depth is not)
         more = containercheck.run(S, tier, bounds=(6, 1), sfx='@6x1')
         S.container_bounds['second_configuration'] = {'containers': more['containers'], 'container_type_depth': more['container_type_depth']}
-    return finish(S, tier, ['order independence of whole programs and duplicate-name detection (predeclare): not encoded',
+    return finish(S, tier, ['order independence of whole programs beyond the depth mechanism, duplicate-name detection (predeclare): not encoded',
                             'analyzer states after the first reported containment cycle (the module is rejected already)',
                             'resolution ids of 8 and above (the HashSet<u32> model is an 8-bit set)'])
 
